@@ -117,6 +117,15 @@ def _curated(est, strs, limit=8, skip=(), every=False):
     return out
 
 
+def _ordered(params, order):
+    """The same keyword arguments in another order (ParameterGrid / GridSearchCV pass them sorted by name)."""
+    if order == "sorted":
+        return dict(sorted(params.items()))
+    if order == "reversed":
+        return dict(sorted(params.items(), reverse=True))
+    return dict(params)
+
+
 def _apply(est, op, C, strs):
     """Applies op to est; returns (object to continue with, return value)."""
     from sklearn.base import clone
@@ -131,7 +140,7 @@ def _apply(est, op, C, strs):
         return est, r
     if op[0] == "transfer":
         donor = C["variants"][op[1]]()
-        r = est.set_params(**donor.get_params(deep=True))
+        r = est.set_params(**_ordered(donor.get_params(deep=True), op[2] if len(op) > 2 else "reported"))
         return est, r
     raise KeyError(op)
 
@@ -247,7 +256,7 @@ def run_case(case):
             if after != before:
                 bad("set_params(k=current value) changes other parameters", ccat, "key %s: %r %s" % (k, _diff(before, after)[:4], hdesc))
         # ---------- transitions
-        ops = [("clone",)] + [("set", k, c) for k, c in _curated(est, strs, 8, C["skip"], every=len(hist) < case.get("alldepth", 1))] + [("transfer", v) for v in sorted(C["variants"])]
+        ops = [("clone",)] + [("set", k, c) for k, c in _curated(est, strs, 8, C["skip"], every=len(hist) < case.get("alldepth", 1))] + [("transfer", v, o) for v in sorted(C["variants"]) for o in (("reported", "sorted", "reversed") if len(hist) == 0 else ("reported",))]
         for op in ops:
             e2 = build(hist)
             before = K.flat_params(e2)
@@ -339,9 +348,9 @@ def run_case(case):
                     continue
                 try:
                     dflat = K.flat_params(donor)
-                    r = e2.set_params(**donor.get_params(deep=True))
+                    r = e2.set_params(**_ordered(donor.get_params(deep=True), op[2]))
                 except Exception as e:
-                    bad("transfer raises %s" % type(e).__name__, "set_params(**other.get_params(deep=True))",
+                    bad("transfer raises %s" % type(e).__name__, "set_params(**other.get_params(deep=True))" + ("" if op[2] == "reported" else ", keys %s" % op[2]),
                         "donor %s: %s %s" % (op[1], str(e)[:300], odesc))
                     continue
                 if r is not e2:
@@ -355,7 +364,7 @@ def run_case(case):
                 own = set(getattr(getattr(e2, "P", None), "Keys", []) or [])
                 after_cmp = {k: v for k, v in after.items() if k in dflat or k not in own}
                 if after_cmp != dflat:
-                    bad("after transfer the parameters differ from the donor's", "set_params(**other.get_params(deep=True))",
+                    bad("after transfer the parameters differ from the donor's", "set_params(**other.get_params(deep=True))" + ("" if op[2] == "reported" else ", keys %s" % op[2]),
                         "(key, donor, receiver)=%r %s" % (_diff(dflat, after_cmp)[:4], odesc))
                 elif C["fit"] and len(hist) < case["bdepth"]:
                     # behave identically
